@@ -10,7 +10,8 @@
 (*               rt (parse(serialise(p)) re-serialises identically), own (the serialisation equals  *)
 (*               the harness's own encoder on the decoded value), get (getters agree with the       *)
 (*               decoded value), z244 (own ZIP 244 txid of the decoded effects = pczt_txid), sigok   *)
-(*               (every partial signature verifies under the own ZIP 244 signature digest)          *)
+(*               (every partial signature verifies under the own ZIP 244 signature digest);         *)
+(*               nin / nss: transparent inputs / inputs that carry a script_sig                     *)
 (*   ch    the slot classes that differ between pre and post, with direction add / del / mod        *)
 EXTENDS Naturals, Sequences, FiniteSets, TLC, Json, IOUtils, PcztFrames
 
@@ -55,7 +56,7 @@ RoleOK(r) ==
                                /\ HasWrite(r, IF r.arg = "sapling" THEN "sapling.spends[].spend_auth_sig"
                                                                    ELSE r.arg \o ".actions[].spend.spend_auth_sig")
       [] r.a = "redact"     -> InFrame(r) /\ FlagsKept(r)
-      [] r.a = "finalize"   -> InFrame(r) /\ FlagsKept(r) /\ (<<"transparent.inputs[].script_sig", "add">> \in Writes(r) \/ r.noop)
+      [] r.a = "finalize"   -> InFrame(r) /\ FlagsKept(r) /\ r.post.nss = r.post.nin
       [] r.a = "prove"      -> InFrame(r) /\ FlagsKept(r)
       [] r.a = "combine"    -> /\ \A w \in Writes(r) : CombineWriteOK(w[1], w[2])
                                /\ r.ncf = 0 /\ L!FlagsValid(r.oflags)
